@@ -167,11 +167,7 @@ func (c *c16Chain) checkFiredRow(r map[string]any, pos uint64) *failure {
 		return &failure{"fired-without-registration", fmt.Sprintf("no admissible registration of the trigger at or before block %d on the canonical chain: %s", m, renderRow(r))}
 	}
 	d := c.defByBytes(inForce.def)
-	match, determined := refMatch(d, &blk.Logs[li])
-	if !determined {
-		panic("harness: log not well formed for a definition watching its contract")
-	}
-	if !match {
+	if !chainVerdict(d, &blk.Logs[li]) {
 		return &failure{"fired-log-does-not-match", fmt.Sprintf("the log named by the fired row does not match %s: %s", defDesc(d), renderRow(r))}
 	}
 	if m > inForce.e {
@@ -328,7 +324,7 @@ func (c *c16Chain) straddleLabels(lo, hi, maxRange uint64, labels map[string]boo
 			for m := rg.e + 1; m <= chi; m++ {
 				blk := c.m.chain.Canonical(m)
 				for k := range blk.Logs {
-					if ok, _ := refMatch(rg.def, &blk.Logs[k]); ok {
+					if chainVerdict(rg.def, &blk.Logs[k]) {
 						late = true
 					}
 				}
